@@ -17,7 +17,7 @@ WRAPS = ["malloc", "realloc", "calloc", "free", "mmap", "munmap", "mprotect", "f
          "open64", "unlink", "close", "syscall"]
 
 WORKLOADS = ["W1x64", "W1x86", "W1a64", "W1r", "W2fin", "W2ser", "W3x64", "W3x86", "W3a64", "W3x64log", "W3a64log",
-             "W4", "W4dual", "W4multi", "W4dualfill", "W4nomemfd", "W4far", "W4fardual", "W5", "W5big", "W5s", "W6", "W7asm", "W7bld", "W7cc"]
+             "W4", "W4dual", "W4multi", "W4dualfill", "W4nomemfd", "W4far", "W4fardual", "W5", "W5big", "W5s", "W6", "W7asm", "W7bld", "W7cc", "W8"]
 COLD = ["W4", "W4dual", "W4nomemfd"]          # vm class additionally with NOTHING warmed up (one case per process)
 CLASSES = ["arena", "heap", "vm"]
 
@@ -456,6 +456,41 @@ def group_of(w):
     return w[:2]
 
 
+def _merge_counts(dst, src):
+    for k, v in src.items():
+        if isinstance(v, dict):
+            _merge_counts(dst.setdefault(k, {}), v)
+        else:
+            dst[k] = dst.get(k, 0) + v
+
+
+def strmodel_evidence(sm, counts):
+    """W8: what the String model observed, from the drivers' own counters."""
+    if not sm:
+        return {}
+    run, failed = sm.get("run", {}), sm.get("failed", {})
+    by_state, by_op = {}, {}
+    for key, n in failed.items():
+        st, op = key.split("/")
+        by_state[st] = by_state.get(st, 0) + n
+        by_op[op] = by_op.get(op, 0) + n
+    return {
+        "fault_points_enumerated_per_class": counts.get("W8", {}),
+        "calls_checked_against_the_model": sm.get("ops", 0),
+        "state_checks": sm.get("checks", 0),
+        "calls_that_returned_an_error": sm.get("failed_calls", 0),
+        "failed_calls_by_storage_at_the_call": sm.get("failed_by_storage", {}),
+        "failed_calls_followed_by_growing_assign_and_append_with_memory_available": sm.get("continuations", 0),
+        "calls_on_an_object_after_its_failed_call_same_run": sm.get("ops_after_failure", 0),
+        "calls_on_such_an_object_in_the_retry": sm.get("ops_in_retry_after_failure", 0),
+        "distinct_start_state_x_operation_executed": len(run),
+        "distinct_start_state_x_operation_with_a_failed_call": len(failed),
+        "failed_calls_by_start_state": by_state,
+        "failed_calls_by_operation": by_op,
+        "failed_growing_assign_on_heap_strings": {k: n for k, n in failed.items() if k.startswith("heap_") and "ASSIGN" in k and "GROW" in k},
+    }
+
+
 def run(tier, args):
     chk = common.Check("C15", tier, level="fault_enumeration")
     exe = build_exe()
@@ -557,6 +592,9 @@ def run(tier, args):
         rep = c["rep"]
         kind = crash_kind(rep, c["tail"])
         crash_in = crash_function(R.sym, rep)
+        if crash_in == "?" and c["site"]:
+            # the report's stack has harness frames only: the caller touched, after the refused request, what the failed call left behind
+            crash_in = "caller-after-failed-" + site_function(R.sym, c["site"])
         key = "%s:%s:%s:%s" % (crash_in, kind, c["cls"], group_of(c["w"]))
         by_key.setdefault(key, []).append(c)
     for key in sorted(by_key):
@@ -586,7 +624,10 @@ def run(tier, args):
                     continue
             fn = site_function(R.sym, v["site"]) if any(v["site"]) else "?"
             kcg = (v["kind"], v["class"], group_of(res["workload"]))
-            if v["mode"] in ("pattern", "sticky"):
+            if v.get("api"):
+                # the workload names the call whose post-condition failed (W8): that, not the first refused request, is the call site
+                key = "%s:%s:%s:%s" % (v["api"], v["kind"], v["class"], group_of(res["workload"]))
+            elif v["mode"] in ("pattern", "sticky"):
                 # several failures: the first failed request says little about the cause; one key per (kind, class, group),
                 # and only when no single-failure witness of the same kind exists there
                 if kcg in seen_kcg:
@@ -615,11 +656,13 @@ def run(tier, args):
     failing_sites = {}
     request_sites = set()
     errors = {}
+    strmodel = {}
     for res in R.results:
         w, cls, mode = res["workload"], res["class"], res["mode"]
         if not res.get("_count_only"):
             for k in tot:
                 tot[k] += res.get(k, 0)
+            _merge_counts(strmodel, res.get("strmodel", {}))
             d = per.setdefault(w, {}).setdefault(cls, {})
             d[mode] = d.get(mode, 0) + res["cases"] + res.get("workers_killed", 0)
             for e, n in res.get("errors", {}).items():
@@ -671,6 +714,7 @@ def run(tier, args):
         "requests_failed_total": tot["requests_failed"],
         "first_error_codes_reported": errors,
         "cases_killed_by_sanitizer": len(R.crashes),
+        "string_model_workload_W8": strmodel_evidence(strmodel, counts),
         "child_processes": R.children,
         "exhaustive": False,
     })
@@ -691,6 +735,13 @@ def run(tier, args):
         "a failure-free run on fresh objects that omits exactly those calls; after every refused emit inst_options()==kNone, no extra "
         "register and no inline comment may remain (Assembler, Builder, Compiler; x86-64)",
         "log text is compared in the retry only: logging is best effort and not part of 'the code'",
+        "W8 (String / StringTmp<32|256> / ArenaString<16|32|64> against a std::string model): after kOk the object holds the model's content; after "
+        "an error it holds what it held before the call (string.cpp obtains the new buffer before it touches the old one) - except a failed "
+        "assign_format(), whose content is accepted as unspecified because _op_vformat() formats in place first; in every case data() != null, "
+        "size() <= capacity() and data()[size()] == 0. After a failed call the same object is read completely, gets a growing assign and an append "
+        "with memory available, and the script goes on (reset, re-assign, ...); 'stop at first error' callers reset / swap out / destroy it as it "
+        "is. Start states: SSO, heap with capacity == size, heap after growth, heap with >= 128 bytes free, external (StringTmp), external with "
+        ">= 128 bytes free, StringTmp moved to the heap; every script from every start state, then seeded free-running sequences",
         "the retry output is compared with the retry of a failure-free run using the same recover strategy (reset soft / reinit / reset hard); "
         "a reinit of a holder that never completed relocate_to_base() is compared with a first run (reinit keeps the base address: documented)",
         "neutralised in the harness because they are not allocation-failure matters (reported to the lead): BaseCompiler keeps _jump_annotations "
